@@ -33,7 +33,9 @@ Consume ==
                   /\ (IF clause = "ok" THEN TRUE ELSE PrintT(<<"FAIL", ev.tid, clause, ev.seq>>))
                   /\ seen' = IF key \in DOMAIN seen \/ clause # "ok" THEN seen ELSE seen @@ (key :> ev.fp)
           ELSE /\ result' = result /\ seen' = seen
-               /\ (IF ev.exc = "none" THEN TRUE ELSE PrintT(<<"FAIL", ev.tid, "exception_raised", ev.seq>>))
+               /\ (IF o.name = "bad_config"
+                   THEN (IF ev.exc = "ValueError" THEN TRUE ELSE PrintT(<<"FAIL", ev.tid, "rejection_of_a_bad_config_depends_on_history", ev.seq>>))
+                   ELSE IF ev.exc = "none" THEN TRUE ELSE PrintT(<<"FAIL", ev.tid, "exception_raised", ev.seq>>))
 TraceSpec == TraceInit /\ [][Consume]_tvars
 AllConsumed ==
   /\ PrintT(<<"INFO", "consumed", TLCGet("stats").diameter - 1, Len(Trace)>>)
